@@ -24,7 +24,7 @@ def run(ctx):
     from . import c13 as _c13
     sessions.model_check(ctx)
     for i_ in range(2):
-        sessions.run_sessions(ctx, random.Random(ctx.seed * 2 + 77 + i_), 120 if ctx.quick else 2500, ('kev', 'fkev'),
+        sessions.run_sessions(ctx, random.Random(ctx.seed * 2 + 77 + i_), 120 if ctx.quick else 2500, ('kev', 'fkev', 'kev', 'tr'),
                               lambda r, world=None: _c13.gen_dump(r, world=world, orphans=0.0, samples=0.0),
                               _c13.gen_cfg, 'ses%d_' % i_)
     ctx.expect_ok(run_tlc('Pipeline_MC', MC_CFG % (2 if ctx.quick else 3, T7, '0, 1, 2', 'FProcNone', 'FClassAll',
